@@ -433,7 +433,8 @@ def node_src(n):
         return '<dtml-comment>%s</dtml-comment>' % body_src(n['body'])
     if k == 'tree':
         a = [ref(n['src'])]
-        for p in ('branches', 'branches_expr', 'id'):
+        for p in ('branches', 'branches_expr', 'id', 'header', 'footer',
+                  'leaves', 'expand'):
             if p in n.get('opts', {}):
                 a.append('%s="%s"' % (p, n['opts'][p]))
         return '<dtml-tree %s>%s</dtml-tree>' % (' '.join(a),
